@@ -185,16 +185,6 @@ BLAKE2b-512, so the digest-size-32 vectors are the recorded chain data of tests/
 set_option maxRecDepth 4000 in
 example : RealHash.blake [] = [0x0e, 0x57, 0x51, 0xc0, 0x26, 0xe5, 0x43, 0xb2, 0xe8, 0xab, 0x2e, 0xb0, 0x60, 0x99, 0xda, 0xa1,
     0xd1, 0xe5, 0xdf, 0x47, 0x77, 0x8f, 0x77, 0x87, 0xfa, 0xab, 0x45, 0xcd, 0xf1, 0x2f, 0xe3, 0xa8] := by decide +kernel
--- ithacanet block 10000 (`test_payload_hash_empty`): predecessor `BLLiiqQeQ1N35S6VXeNcsyQPphoM17ZCXm9M6ek3xPYXj1tX2pE`,
--- round 0, no operations: payload hash `vh3XZvx7wgTBp92mUVJ9jBNC1NQ79d6DBJm9pappux3exakXJaUU`
-set_option maxRecDepth 4000 in
-example : (Impl.MerkleText.blockPayloadHash RealHash.cks RealHash.blake
-    [66, 76, 76, 105, 105, 113, 81, 101, 81, 49, 78, 51, 53, 83, 54, 86, 88, 101, 78, 99, 115, 121, 81, 80, 112,
-    104, 111, 77, 49, 55, 90, 67, 88, 109, 57, 77, 54, 101, 107, 51, 120, 80, 89, 88, 106, 49, 116, 88, 50, 112,
-    69] 0 []).toOption =
-    some [118, 104, 51, 88, 90, 118, 120, 55, 119, 103, 84, 66, 112, 57, 50, 109, 85, 86, 74, 57, 106, 66, 78, 67, 49,
-    78, 81, 55, 57, 100, 54, 68, 66, 74, 109, 57, 112, 97, 112, 112, 117, 120, 51, 101, 120, 97, 107, 88, 74, 97,
-    85, 85] := by decide +kernel
 -- ithacanet block 288671 (`test_payload_hash_tx`): predecessor `BL1whyhJA8fUF2ziNZj1MnHFQNLD6QTZTTHiG1oL8LSFwdJQ43z`,
 -- round 0, one operation `ooa2pnEHguRveoV8WMYswpuSkyvxKTA9hyHDAsVgc9qnXtcDxd7`:
 -- payload hash `vh29w4KZGVb3A9QyjzDetftoWiCfvRugwAiaQ5Z3FFScy7QzjmH9`
